@@ -79,6 +79,13 @@ REGISTRY['C19'] = dict(level='exploration', bounded='checks.bounded.C19', extra_
                        assumptions=['np.sqrt is an abstract real function in the Lean theorems (no property of it is used); np.ptp(v) == 0 is modelled as "all entries equal"',
                                     'thresholding, component search, the permutation loop filling the null distribution and extent/intensity sizes of nbs_bct are covered by the bounded stand-in only'],
                        technique='numpy->Lean extraction + Lean proofs for the t-statistic helpers of nbs_bct (defining formulas, invariance under swapping groups together with the tail, under tail=both, under reordering subjects / pairs) and the p-value statement (fraction of null values >= component size); brute-force oracle on small subject sets (bounded) for components and null distribution')
+REGISTRY['C20'] = dict(level='other', bounded='checks.bounded.C20', extra_proved=['checks.lean_check.lean'],
+                       pyvc=[('contracts.generators', k, None, None) for k in ['makerandCIJ_dir', 'makerandCIJ_und', 'maketoeplitzCIJ', 'makeringlatticeCIJ']],
+                       trusted=PYVC_TRUSTED + ['oracles of checks/bounded/C20.py', 'counting lemmas lemma_flat_count / lemma_image_count / lemma_tsum_add / lemma_tsum_plus_transpose / lemma_tsum_int / lemma_full_offdiag (code-independent; engine/lean)',
+                                               'assumed library contracts: scipy.linalg.toeplitz(c, r)[x][y] = c[x-y] (x >= y) else r[y-x]; scipy.stats.norm.pdf > 0; RandomState.random_sample in [0,1); RandomState.permutation is a permutation'],
+                       assumptions=['flat (row-major) positions are modelled by two uninterpreted functions frow/fcol constrained only for positions returned by np.where(X.flat); validity of a flat store is provable only for such positions',
+                                    'makeevenCIJ, makefractalCIJ and makerandCIJdegreesfixed are covered by the bounded stand-in only', 'preconditions: 0 <= k <= n*n - n (directed / lattice), 2k <= n*n - n (undirected)'],
+                       technique='deductive (pyvc+z3+counting lemmas) for makerandCIJ_dir/_und, maketoeplitzCIJ and makeringlatticeCIJ: exactly K connections, 0/1 entries, empty diagonal, symmetry (und), band structure of the ring lattice; bounded exhaustive parameter grids for the other generators')
 for _pid in ['C08', 'C16', 'C18', 'C19', 'C20']:
     REGISTRY.setdefault(_pid, dict(level='exploration', bounded='checks.bounded.%s' % _pid, trusted=['oracles of checks/bounded/%s.py' % _pid],
                                    technique='bounded stand-in: the property\'s contract executed on the real functions over exhaustive small scopes'))
